@@ -170,6 +170,38 @@ def body_frame(qname, extra=None):
     return m
 
 
+class _AnyArgs:
+    """a contract context seen from another function: same heaps, arbitrary arguments (to read off WHICH heap arrays a
+    callee's frame names, not which objects)"""
+
+    def __init__(self, c):
+        self._c = c
+
+    def __getattr__(self, n):
+        return getattr(self._c, n)
+
+    def arg(self, n):
+        import z3
+
+        return z3.Int("anyarg!" + n)
+
+
+def frame_arrays_any(*qnames):
+    """for a caller's modifies clause: every heap array the given callee contracts may write, for ANY object (the
+    caller does not say which pool / worker the callee is applied to)"""
+
+    def m(c):
+        out = {}
+        for q in qnames:
+            b = CONTRACTS[q]
+            if b.modifies:
+                for k in b.modifies(_AnyArgs(c)):
+                    out[k] = ANY
+        return out
+
+    return m
+
+
 def add_refinements(skip=None, defs=None):
     """For every pair (abstract trusted contract X used by the callers, X#body verified against the source) register
     the refinement check X#refines: under the preconditions of both, whatever X#body allows (result, post-state, frame,
